@@ -383,16 +383,19 @@ func (ps *Points) Collapse() {
 		return
 	}
 
-	pts := make(map[string]Point)
+	// type and key are kept apart (a struct, no separator the strings
+	// themselves could contain), so that ("ab", "") and ("a", "b") are
+	// different points
+	type typeKey struct{ typ, key string }
+	pts := make(map[typeKey]Point)
 
 	for _, p := range *ps {
-		// an empty key means key "0"; separate type and key so that
-		// ("ab", "") and ("a", "b") are different points
+		// an empty key means key "0"
 		key := p.Key
 		if key == "" {
 			key = "0"
 		}
-		id := p.Type + "\x00" + key
+		id := typeKey{p.Type, key}
 		pA, OK := pts[id]
 		if OK {
 			if pA.Time.Before(p.Time) || pA.Time.Equal(p.Time) {
